@@ -1,6 +1,8 @@
 // ===== shim/labeled.rs : mirror of poly-commit's LabeledPolynomial accessors (data_structures.rs; plain field getters + Deref to the polynomial) =====
 pub struct LabeledPolynomial { pub label: String, pub polynomial: Poly, pub degree_bound: Option<usize>, pub hiding_bound: Option<usize> }
 impl LabeledPolynomial {
+    pub fn new(label: String, polynomial: Poly, degree_bound: Option<usize>, hiding_bound: Option<usize>) -> (r: Self)
+        ensures r.label == label, r.polynomial == polynomial, r.degree_bound == degree_bound, r.hiding_bound == hiding_bound { LabeledPolynomial { label, polynomial, degree_bound, hiding_bound } }
     pub fn label(&self) -> (r: &String) ensures *r == self.label { &self.label }
     pub fn polynomial(&self) -> (r: &Poly) ensures *r == self.polynomial { &self.polynomial }
     pub fn degree_bound(&self) -> (r: Option<usize>) ensures r == self.degree_bound { self.degree_bound }
